@@ -119,6 +119,14 @@ def families():
             t.append("ldi r16, " + ch + "+(" * n + "1" + ")" * n + "\n")
             t.append(".db " + ch + ", " + "-(1+" * n + "1" + ")" * n + "\n")
         t.append(".db \"" + "(" * n + "\", " + "(" * n + "1" + ")" * n + "\n")
+    # one name for two symbols of every pair of kinds, in both orders, then a use
+    kinds = {"label": "%s: nop\n", "equ": ".equ %s = 5\n", "set": ".set %s = 4\n", "def": ".def %s = r16\n", "define": ".define %s\n", "macro": ".macro %s\nnop\n.endm\n",
+             "set2": ".set %s = %s + 1\n".replace("%s + 1", "1 + 1"), "undef": ".undef %s\n"}
+    for nme in ("loop", "tmp", "pc", "r5", "x", "low", "Zh", "nop"):
+        for k1, t1 in kinds.items():
+            for k2, t2 in kinds.items():
+                for use in ("ldi r16, %s\n", "mov %s, r1\n", ".dw %s\n", "%s\n"):
+                    t.append((t1 % nme) + (t2 % nme) + (use % nme))
     # lines of a branch that is passed over: indented, with colons, with text no grammar takes, with multi-byte characters
     for indent in ("", " ", "\t", "        ", " \t  ", "\u00a0", "\x0c"):
         for body in ("foo: ?", "x:", ": :", "é: .if 1", "lbl: .endif ?", ".if @0 ; note: x", "a b c: d", ".else: x", "\u20ac\u20ac: ?", ".endif", "#endif :", "l1: l2: .if", "::::"):
